@@ -22,6 +22,9 @@ impl Sl {
     // &[] / &mut []: an empty slice somewhere else
     #[verifier::external_body]
     pub fn empty() -> (s: Sl) ensures s.len == 0 { unimplemented!() }
+    // the same, typed: `&[]` where a slice of items spanning `stride` elements each is expected
+    #[verifier::external_body]
+    pub fn empty_of(stride: usize) -> (s: Sl) ensures s.len == 0, s.stride == stride { unimplemented!() }
 }
 // NonNull::dangling().as_ref() / as_mut(): a well-aligned address that is NOT derived from any reference in scope (nothing is known about it)
 #[verifier::external_body]
@@ -58,10 +61,21 @@ pub struct LengthError;
 
 proof fn lemma_chunks(l: usize, n: usize)
     requires n > 0,
-    ensures (l / n) * n <= l, l - (l / n) * n == l % n,
+    ensures (l / n) * n <= l, l - (l / n) * n == l % n, l < n ==> l / n == 0 && l % n == l, l == n ==> l / n == 1 && l % n == 0,
 {
     vstd::arithmetic::div_mod::lemma_fundamental_div_mod(l as int, n as int);
     assert((l / n) * n == n * (l / n)) by (nonlinear_arith);
+    let q = (l / n) as int; let r = (l % n) as int;
+    assert(l as int == (n as int) * q + r && 0 <= r < n as int && 0 <= q);
+    if l < n { assert(q == 0) by (nonlinear_arith) requires l as int == (n as int) * q + r, 0 <= r, (l as int) < n as int, n > 0, 0 <= q; assert((n as int) * q == 0) by (nonlinear_arith) requires q == 0; }
+    if l == n { assert(q == 1) by (nonlinear_arith) requires l as int == (n as int) * q + r, 0 <= r < n as int, l as int == n as int, n > 0, 0 <= q; assert((n as int) * q == n as int) by (nonlinear_arith) requires q == 1; }
+}
+// arithmetic facts about L / N and L % N offered to every chunking function at entry (a body that takes a different but
+// equivalent route - an early return for L < N, say - must not fail for want of a division lemma)
+proof fn lemma_chunks_entry(l: usize, n: usize)
+    ensures n > 0 ==> (l / n) * n <= l && l - (l / n) * n == l % n && (l < n ==> l / n == 0 && l % n == l) && (l == n ==> l / n == 1 && l % n == 0),
+{
+    if n > 0 { lemma_chunks(l, n); }
 }
 
 // const_transmute: reading field `b` of `union { a: A, b: B }` after writing `a` reinterprets size_of::<B>() bytes, of which only
